@@ -2,6 +2,7 @@ import GenjaxModel.Proofs.Resample
 import GenjaxModel.Proofs.ResampleIntegral
 import GenjaxModel.Proofs.ResampleCategorical
 import Mathlib.Tactic.NormNum
+import GenjaxModel.Proofs.GfiGather
 /-!
 # C12 — resampling copies particles faithfully, preserves the estimate, and is unbiased
 
@@ -149,5 +150,83 @@ example : Smc.FinDist.E (multinomial ([1, 2, 1] : List ℚ) 4)
   rw [C12_categorical_unbiased ([1, 2, 1] : List ℚ) 4 (by norm_num [sum]) 1 (by simp)]
   norm_num [sum]
 
-end Genjax.Resample
+/-! ## BEGIN c05gather — the resampled particle collection is a coherent TRACE
 
+`C12_copy_faithful` speaks about an abstract list of particles.  Here the particles are the lanes
+of the Vmap trace that `ParticleCollection.traces` is (`Proofs/GfiGather.lean`, `Props/C05.lean`):
+after `resample` the collection is again a coherent trace — for the GATHERED arguments. -/
+
+/-- **`resample` returns a coherent particle trace and the same estimate.**  Let the particles of
+    `c` be the lanes of a coherent trace of `Vmap g axes N` on `args` (`N` = number of weights),
+    `idx` an ancestor vector of length `N` with entries `< N` (as `C12_index_valid`,
+    `C12_same_count` provide for systematic resampling).  Then
+    * the resampled particles are a coherent trace of `Vmap g axes N` on `gatherArgs axes idx args`
+      (mapped arguments gathered with the same `idx`, broadcast arguments unchanged);
+    * particle `j` of the result is particle `idx[j]` of the input, coherent for the callee on
+      particle `idx[j]`'s own arguments (one source index for the whole particle, arguments included);
+    * the score of the resampled trace is the sum of the ancestors' scores;
+    * `exp(log_marginal_likelihood())` is unchanged (`C12_estimate_invariant`). -/
+theorem C12_resample_trace_coherent {R : Type} [Zero R] [Add R] [Neg R] (P : Prims R)
+    (g : GF) (axes : List Bool) (args : List Val) (c : Coll K (Tr R)) (idx : List Nat)
+    (hcoh : (GF.vmap g axes c.w.length).Coh P args (.vec (TrL.ofList c.particles)))
+    (hidx : ∀ i ∈ idx, i < c.w.length) (hn : c.w.length ≠ 0) (hl : idx.length = c.w.length) :
+    (GF.vmap g axes (c.resample idx).w.length).Coh P (gatherArgs axes idx args)
+        (.vec (TrL.ofList (c.resample idx).particles)) ∧
+    (∀ j i, idx[j]? = some i →
+      ∃ t, c.particles[i]? = some t ∧ (c.resample idx).particles[j]? = some t ∧
+        laneArgs axes (gatherArgs axes idx args) j = laneArgs axes args i ∧
+        g.Coh P (laneArgs axes args i) t) ∧
+    (Tr.vec (TrL.ofList (c.resample idx).particles)).score =
+      sumR (idx.map fun i => (c.particles.getD i default).score) ∧
+    (c.resample idx).lml = c.lml := by
+  have hp : (c.resample idx).particles = ((TrL.ofList c.particles).gather idx).toList := by
+    rw [TrL.gather_toList, toList_ofList_gather]; rfl
+  have hp' : TrL.ofList (c.resample idx).particles = (TrL.ofList c.particles).gather idx := by
+    show TrL.ofList (gatherL idx c.particles) = _
+    rw [TrL.gather, toList_ofList_gather]
+  have hw : (c.resample idx).w.length = idx.length := by simp [Coll.resample]
+  refine ⟨?_, ?_, ?_, C12_estimate_invariant c idx hn hl⟩
+  · rw [hw, hp']
+    exact vmap_gather_coherent P g axes _ args _ idx hcoh hidx
+  · intro j i hj
+    obtain ⟨t, h1, h2, h3⟩ := vmap_gather_lane P g axes _ args _ idx hcoh hidx j i hj
+    rw [toList_ofList_gather] at h1
+    rw [← hp] at h2
+    exact ⟨t, h1, h2, laneArgs_gatherArgs idx j i hj axes args, h3⟩
+  · rw [hp', vmap_gather_score, toList_ofList_gather]
+
+/-- **the recorded arguments have to be resampled with the particles** (proved counterexample,
+    the seeded regression `/verif/seeded/C12_3`): a coherent 3-particle collection with positive
+    weights and an in-range ancestor vector of the right length whose resampled particle trace is
+    NOT coherent for the un-gathered arguments. -/
+theorem C12_resample_args_needed :
+    ∃ (P : Prims ℤ) (g : GF) (axes : List Bool) (args : List Val) (c : Coll ℚ (Tr ℤ))
+      (idx : List Nat),
+      (GF.vmap g axes c.w.length).Coh P args (.vec (TrL.ofList c.particles)) ∧
+      (∀ i ∈ idx, i < c.w.length) ∧ c.w.length ≠ 0 ∧ idx.length = c.w.length ∧
+      ¬ (GF.vmap g axes (c.resample idx).w.length).Coh P args
+          (.vec (TrL.ofList (c.resample idx).particles)) := by
+  obtain ⟨h1, h2, h3, _, h5⟩ : (GF.vmap gatherExG [true, false] 3).Coh gatherExP gatherExArgs
+        (.vec gatherExLanes) ∧ (∀ i ∈ [2, 0, 0], i < 3) ∧ [2, 0, 0].length = 3 ∧ True ∧
+      ¬ (GF.vmap gatherExG [true, false] 3).Coh gatherExP gatherExArgs
+          (.vec (gatherExLanes.gather [2, 0, 0])) := by
+    refine ⟨gatherEx_coh, by decide, rfl, trivial, ?_⟩
+    rw [gatherEx_gather]
+    simp [GF.Coh, lanesCoh, TrL.ofList, TrL.toList, gatherExLane, gatherExG, Body.Coh, TrL.find?,
+      gatherExArgs, laneArgs, Val.ofList, Val.nth, Expr.eval, gatherExP, Body.addrs, Val.toRat]
+  refine ⟨gatherExP, gatherExG, [true, false], gatherExArgs,
+    ⟨gatherExLanes.toList, [1, 2, 1], 1, []⟩, [2, 0, 0], ?_, h2, by decide, rfl, ?_⟩
+  · exact h1
+  · exact h5
+
+/-- non-vacuity of `C12_resample_trace_coherent`: the 3-particle collection of `Props/C05.lean`
+    (mapped argument `(10,20,30)`, broadcast argument `5`) with weights `[1,2,1]`, `idx = [2,0,0]` -/
+example : let c : Coll ℚ (Tr ℤ) := ⟨gatherExLanes.toList, [1, 2, 1], 1, []⟩
+    (GF.vmap gatherExG [true, false] c.w.length).Coh gatherExP gatherExArgs
+        (.vec (TrL.ofList c.particles)) ∧
+    (∀ i ∈ [2, 0, 0], i < c.w.length) ∧ c.w.length ≠ 0 ∧ [2, 0, 0].length = c.w.length :=
+  ⟨gatherEx_coh, by decide, by decide, rfl⟩
+
+/-! ## END c05gather -/
+
+end Genjax.Resample
